@@ -17,8 +17,22 @@ WRAPPERS = {"ParenExpr", "ImplicitCastExpr", "ExprWithCleanups", "MaterializeTem
 COMPOUND_OPS = {"+=", "-=", "*=", "/=", "%=", "&=", "|=", "^=", "<<=", ">>="}
 
 
+def ir_sx(n):
+    from . import ir
+    return ir.sx(n)
+
+
+def subterms_(t):
+    from . import ir
+    return ir.subterms(t)
+
+
 class Unknown(Exception):
     """A construct the evaluator cannot interpret on a path that matters."""
+
+
+class FlagMisuse(Exception):
+    """presence flags combined in a way that is not the logical conjunction/disjunction for every flag type"""
 
 
 class Obj:
@@ -72,6 +86,8 @@ class Evaluator:
         self.ops = []                    # logged operation applications (terms)
         self.local_types = {}
         self.depth = 0
+        self.identity_tests = []         # `this == &rhs`-style branches met (evaluated as "distinct objects" unless self.alias)
+        self.alias = False
 
     # ---- helpers ---------------------------------------------------------
     def kids(self, n):
@@ -311,6 +327,11 @@ class Evaluator:
             self.depth -= 1
 
     def operator(self, op, operands, env, unary=False):
+        if op in ("&", "|", "&=", "|=", "^", "^=") and len(operands) == 2:
+            a0, b0 = self.rv(operands[0], env), self.rv(operands[1], env)
+            if self.as_bool(a0) is not None and self.as_bool(b0) is not None:
+                raise FlagMisuse("two presence flags are combined with the bitwise operator `%s`: for a flag type other than bool, truthy flags such as 2 and 1 "
+                                 "give 0, so a result whose operands are all present comes out missing" % op)
         if op in ("&&", "||") and len(operands) == 2:
             a = self.rv(operands[0], env)
             ab = self.as_bool(a)
@@ -427,7 +448,13 @@ class Evaluator:
             c = self.rv(kids[0], env)
             b = self.as_bool(c)
             if b is None:
-                raise Unknown("branch on a value that is not a presence test")
+                t = ir_sx(kids[0])
+                ident = t[0] == "bin" and t[1] in ("==", "!=") and any(x == ("this",) for x in subterms_(t)) and any(x[0] == "un" and x[1] == "&" for x in subterms_(t))
+                if ident:
+                    self.identity_tests.append(s)
+                    b = bool(getattr(self, "alias", False)) == (t[1] == "==")
+                else:
+                    raise Unknown("branch on a value that is not a presence test")
             if b:
                 return self.stmt(kids[1], env)
             if len(kids) > 2:
